@@ -398,6 +398,9 @@ def check(run, db, tier):
     run.rule('C13.pure', 'no function of the PSD chain writes in place through one of its arguments (may-alias over views, joined over branches)')
     for fn in (api_rules, origin_rules, norm_rules, band_rules, edge_rules, rms_rules, pure_rules):
         run.group(fn, run, db)
+    from . import c12
+    from .c02 import Proxy
+    run.group(c12.stats_rules, Proxy(run, {'C12.stats': 'C13.rms'}), db)
     run.require_instances('C13.origin', 4)
     run.require_instances('C13.pure', 10)
     run.require_instances('C13.api', 50)
